@@ -357,7 +357,13 @@ func (e *Exec) callByContract(st *State, fr *Frame, callee *ssa.Function, ct *Co
 
 func (e *Exec) applyAssigns(st *State, ct *Contract, env *SpecEnv) {
 	if len(ct.Assigns) == 0 {
-		return // pure
+		if ct.Pure {
+			return
+		}
+		// no frame given: the callee may write anything the caller can see
+		e.Note("contract of %s has no assigns clause: its calls havoc all memory", ct.Func)
+		st.HavocMem(nil)
+		return
 	}
 	for _, a := range ct.Assigns {
 		if a == "*" {
@@ -371,7 +377,7 @@ func (e *Exec) applyAssigns(st *State, ct *Contract, env *SpecEnv) {
 		if strings.HasPrefix(a, "obj(") {
 			v := e.evalSpec(a[4:len(a)-1], env)
 			objs = append(objs, LObj(v.L[0]))
-		} else if a == "fresh" {
+		} else if a == "fresh" || a == "nothing" {
 			// handled through the watermark below
 		} else {
 			panic("assigns: unsupported clause " + a)
